@@ -90,10 +90,10 @@ def agentInfoLine (a : Agent) : String :=
     (only if the runtime had been started), one status line per extension, init-report -/
 def initTailEvents (s : State) (ph : Phase) (status : String) : State :=
   let s := if s.rtDoneReg then
-      s.emit s!"ev initRuntimeDone:{ph.str}:{status}:{if status == "success" then "-" else s.fatal.getD "Runtime.Unknown"}"
+      s.emitEv .initRuntimeDone s!"{ph.str}:{status}:{if status == "success" then "-" else s.fatal.getD "Runtime.Unknown"}"
     else s
   let s := ((s.agents.filter (·.ext)) ++ (s.agents.filter (!·.ext))).foldl (fun s a => s.emit (agentInfoLine a)) s
-  s.emit s!"ev initReport:{ph.str}"
+  s.emitEv .initReport ph.str
 
 /-- the deferred calls of doRuntimeDomainInit and what its caller does with the result -/
 def initFinish (s : State) (ph : Phase) (ok : Bool) (status : String) (e : Option CErr) : State :=
@@ -130,7 +130,7 @@ def launchExtensions (s : State) (ph : Phase) : List String → State
       launchExtensions (s.emit s!"sup exec:{pr.full}") ph ps
 
 def startInit (s : State) (ph : Phase) : State :=
-  let s := s.emit s!"ev initStart:{ph.str}"
+  let s := s.emitEv .initStart ph.str
   let s := { s with gen := s.gen + 1, rtDoneReg := false }
   let r := s.initFlow.extRegistered.setCount s.extFiles.length
   if !r.2 then initFinish s ph false "success" none else
